@@ -22,6 +22,10 @@ def cases(tier, seed):
         yield cid, {"specs": specs, "tier": tier}
     for i, seq in enumerate(C.mixing_sequences()):
         yield f"C01|mixing|{i:02d}|{seq[0][0]}", {"specs": seq, "tier": tier}
+    # an encoder RESTORED from a checkpoint: B.load_state_dict(A.state_dict()) for two differently configured encoders of one class and size;
+    # the restored object must again describe one code (all clauses are evaluated on it)
+    for i, seq in enumerate(C.restore_pairs()):
+        yield f"C01|restore|{i:02d}|{seq[0][0]}", {"specs": seq, "tier": tier, "restore": True}
 
 
 def component_of(p):
@@ -29,6 +33,20 @@ def component_of(p):
 
 
 def execute(p, res):
+    if p.get("restore"):
+        specs = p["specs"]
+        for a, b in zip(specs, specs[1:]):
+            encA, encB = construct(a, res), construct(b, res)
+            if encA is None or encB is None:
+                continue
+            cfg = f"{b[1]} <- state of {a[1]}"
+            try:
+                encB.load_state_dict(encA.state_dict())
+            except Exception:  # noqa: BLE001
+                res.rejected += 1           # shapes / keys differ: the checkpoint is declined
+                continue
+            check_code((a[0], cfg, a[2]), p["tier"], res, enc=encB)
+        return
     for spec in p["specs"]:
         check_code(spec, p["tier"], res)
 
@@ -52,10 +70,11 @@ def construct(spec, res, pid_component=None):
         return None
 
 
-def check_code(spec, tier, res):
+def check_code(spec, tier, res, enc=None):
     import torch
     fam, cfg, prm = spec
-    enc = construct(spec, res)
+    if enc is None:
+        enc = construct(spec, res)
     if enc is None:
         return
     if fam == "bch" and not prm.get("admissible", True):
